@@ -367,3 +367,50 @@ func loopBodyEntryOf(g *eng.Graph, loop ast.Stmt) *eng.GNode {
 	}
 	return nil
 }
+
+// usesElem reports whether e contains the element of the current iteration of el.
+func usesElem(el *eng.ElemLoop, e ast.Expr) bool {
+	found := false
+	ast.Inspect(e, func(n ast.Node) bool {
+		if x, ok := n.(ast.Expr); ok && !found && el.IsElem(x) {
+			found = true
+		}
+		return !found
+	})
+	return found
+}
+
+// elemLoopCalling finds a whole-slice loop in body over a slice accepted by base in which every iteration (no early
+// exit) calls method m on the element of that iteration. el is the last candidate loop seen (for reports).
+func elemLoopCalling(g *eng.Graph, info *types.Info, body ast.Node, base func(ast.Expr) bool, m *types.Func) (el *eng.ElemLoop, ok bool) {
+	for _, l := range elemLoopsOver(info, body, base) {
+		l := l
+		el = l
+		ok = loopNoEarlyExit(g, l.Stmt) && loopBodyMustPass(g, l.Stmt, func(n *eng.GNode) bool {
+			return len(g.CallsAt(n, func(o types.Object, call *ast.CallExpr) bool {
+				s, isS := ast.Unparen(call.Fun).(*ast.SelectorExpr)
+				return o == m && isS && l.IsElem(s.X)
+			})) > 0
+		})
+		if ok {
+			return el, true
+		}
+	}
+	return el, false
+}
+
+// isParamOf reports whether x names a parameter of the literal.
+func isParamOf(info *types.Info, lit *ast.FuncLit, x ast.Expr) bool {
+	o := eng.SelObj(info, x)
+	if o == nil || lit.Type.Params == nil {
+		return false
+	}
+	for _, fl := range lit.Type.Params.List {
+		for _, nm := range fl.Names {
+			if info.Defs[nm] == o {
+				return true
+			}
+		}
+	}
+	return false
+}
